@@ -33,6 +33,10 @@ class Recorder:
         self.script = []
         self.design = None
         self.calls = []
+        # True: the sampler hands ONE buffer to its callbacks for the whole run, refilled in place for every point
+        # (what MultiNest's Fortran bridge does with its cube; a sampler written around a work vector); False: a new
+        # array per point.  Set by the workload.
+        self.reuse_buffers = False
 
 
 RECORDER = Recorder()
